@@ -384,15 +384,14 @@ Qed.
 Print Assumptions format_int_denotes.
 
 Section FormatBase.
-  Variable fmt_g : f64 -> string.
   Variable parse_float_fn : string -> pfres.
   Variable format_int_fn : Z -> Z -> string.
-  Variable atoi_fn : string -> option Z.
+  Variable shortest_fn : f64 -> Z * Z.
   Hypothesis format_int_fn_denotes :
     forall z base, 2 <= base <= 36 -> eval_numeral base (format_int_fn z base) = Some z.
 
-  Let rnd := round fmt_g parse_float_fn format_int_fn atoi_fn.
-  Let fbase := format_base fmt_g parse_float_fn format_int_fn atoi_fn.
+  Let rnd := round parse_float_fn format_int_fn shortest_fn.
+  Let fbase := format_base parse_float_fn format_int_fn shortest_fn.
 
   Definition radix_of (base : option f64) : Z :=
     match base with Some b => go_int (rnd b None) | None => 10 end.
@@ -415,14 +414,6 @@ Section FormatBase.
     - replace ((radix <? 2) || (36 <? radix)) with true by lia. eauto.
   Qed.
 
-  (* Round with the default precision leaves integral doubles alone (every |x| >= 2^52 is
-     integral), returning +0 for both zeros *)
-  Lemma round_integral x :
-    feqb x (ftrunc x) = true -> rnd x None = if feqb x fzero then fzero else x.
-  Proof.
-    intros H. subst rnd. unfold round. destruct (feqb x fzero); [reflexivity|].
-    simpl. now rewrite H.
-  Qed.
 End FormatBase.
 
 (* the closed instance used by the evaluator *)
@@ -433,8 +424,7 @@ Theorem go_format_base_spec value base :
                eval_numeral radix s = Some (go_int (go_round value None))) /\
   (~ 2 <= radix <= 36 -> exists t, go_format_base value base = LErr t).
 Proof.
-  exact (format_base_spec format_float_g go_parse_float format_int atoi format_int_denotes
-                          value base).
+  exact (format_base_spec go_parse_float format_int go_shortest format_int_denotes value base).
 Qed.
 Print Assumptions go_format_base_spec.
 
@@ -446,14 +436,59 @@ Example go_format_base_ex :
 Proof. repeat split; try (vm_compute; reflexivity). eexists. vm_compute. reflexivity. Qed.
 
 (* ------------------------------------------------------------------------------------ *)
-(* 5. round_half_even: NOT proved, and false as stated even for the repaired code.        *)
-(*    Round shifts the shortest decimal text of x by p places and reads it back as a       *)
-(*    double (multByPow10); when the shifted decimal v is not representable, the double    *)
-(*    nearest to v can be an exact n + 0.5 although v is not, and is then rounded as a tie. *)
-(*    With 17 significant digits this happens for |x| * 10^p >= about 10^15 (below 2^53):   *)
-(*    see round_false_tie.  The witnesses are computed on the model, which agrees with the  *)
-(*    Go code on all Round vectors (harness/vectors/numbers).                               *)
+(* 5. Round is half-to-even on the decimal digits (after the repair).                     *)
+(*    The shortest numeral of |x| is m * 10^k (m a positive integer without trailing zero); *)
+(*    rounding at the p-th fraction digit drops d = -(k+p) digits: q = RNE(m / 10^d), and   *)
+(*    the result is the double nearest to q * 10^-p (strconv.ParseFloat, proved correctly   *)
+(*    rounded in DecimalProofs).  rne_div_spec is the integer half of the statement.        *)
+(*    (Before the repair the scaled value was rounded to a double first: round_false_tie.)  *)
 (* ------------------------------------------------------------------------------------ *)
+Definition rne_div (m pw : Z) : Z :=
+  let q := m / pw in let r := m mod pw in
+  if (pw <? 2 * r) || ((2 * r =? pw) && Z.odd q) then q + 1 else q.
+
+(* q = rne_div m pw is an integer nearest to m / pw, and the even one of the two when m / pw is
+   exactly half-way *)
+Theorem rne_div_spec m pw : 0 < pw -> 0 <= m ->
+  let q := rne_div m pw in
+  2 * Z.abs (q * pw - m) <= pw /\ (2 * Z.abs (q * pw - m) = pw -> Z.even q = true).
+Proof.
+  intros Hpw Hm. unfold rne_div. cbv zeta.
+  pose proof (Z.div_mod m pw ltac:(lia)) as E. pose proof (Z.mod_pos_bound m pw Hpw) as B.
+  set (q0 := m / pw) in *. set (r := m mod pw) in *.
+  destruct (pw <? 2 * r) eqn:C1; cbn [orb].
+  - split; [nia|]. intros H. exfalso. nia.
+  - destruct (2 * r =? pw) eqn:C2; cbn [andb].
+    + destruct (Z.odd q0) eqn:O.
+      * split; [nia|]. intros _. rewrite Z.even_add, <- Z.negb_odd, O. reflexivity.
+      * split; [nia|]. intros _. rewrite <- Z.negb_odd, O. reflexivity.
+    + split; [nia|]. intros H. exfalso. nia.
+Qed.
+Print Assumptions rne_div_spec.
+
+(* Round, for a finite non-zero x whose rounding position lies inside its digits, is the double that
+   ParseFloat reads from  rne_div m 10^d  followed by the exponent -p  (sign restored) *)
+Theorem go_round_digits x p m k :
+  feqb x fzero = false -> is_nan x = false -> is_inf x = false ->
+  go_shortest (fabs x) = (m, k) ->
+  p <= 400 -> k + p < 0 -> -400 <= p -> - (k + p) <= Z.of_nat (slen (format_int m 10)) ->
+  let q := rne_div m (10 ^ (- (k + p))) in
+  go_round x (Some p) =
+    if q =? 0 then fzero
+    else match go_parse_float (format_int q 10 ++ "e" ++ format_int (- p) 10) with
+         | PfOk res => if is_inf res then x else if fltb x fzero then fopp res else res
+         | _ => x
+         end.
+Proof.
+  intros Hz Hn Hi Hs Hp1 Hk Hp2 Hd. cbv zeta. unfold go_round, round. rewrite Hz, Hn, Hi. cbn [orb].
+  rewrite Hs. unfold itoa.
+  replace (400 <? p) with false by lia. replace (0 <=? k + p) with false by lia. cbn [orb].
+  replace (p <? -400) with false by lia.
+  replace (Z.of_nat (slen (format_int m 10)) <? - (k + p)) with false by lia. cbn [orb].
+  unfold rne_div, pow10_small. reflexivity.
+Qed.
+Print Assumptions go_round_digits.
+
 Definition dec (s : string) : f64 := match parse_float s with PFOk x => x | _ => S754_nan end.
 
 (* repaired (math.Round instead of floor(x + 0.5)): the predecessor of 0.5 rounds to 0,
@@ -465,13 +500,12 @@ Example round_pred_half_repaired :
   go_round (dec "450359962737049.7") (Some 1) = dec "450359962737049.7".
 Proof. repeat split; vm_compute; reflexivity. Qed.
 
-(* REMAINING DEFECT: 225179981368524.94 (shortest form 2.2517998136852494e+14) shifted by one
-   place is 2251799813685249.4, which lies in [2^51, 2^52) where doubles are 0.5 apart; the
-   nearest double is ...249.5, a "tie", rounded to the even ...250: the result is
-   225179981368525 instead of 225179981368524.9 *)
-Example round_false_tie :
+(* REPAIRED: 225179981368524.94 (shortest form 2.2517998136852494e+14) shifted by one place is
+   2251799813685249.4; the old code read that back as the double ...249.5, took it for a tie and
+   returned 225179981368525; rounding on the digits gives 225179981368524.9 *)
+Example round_false_tie_repaired :
   format_float_g (dec "225179981368524.94") = "2.2517998136852494e+14"%string /\
-  go_round (dec "225179981368524.94") (Some 1) = dec "225179981368525".
+  go_round (dec "225179981368524.94") (Some 1) = dec "225179981368524.9".
 Proof. split; vm_compute; reflexivity. Qed.
 
 (* int64(float64) of a value beyond 2^63 is the amd64 "integer indefinite" value *)
